@@ -9,6 +9,12 @@ TRUST = ("Trusted base: Go type checker and go/ssa construction (x/tools v0.29.0
 
 # id -> (claimed?, technique, level text, not-decided / note, design ref)
 P = {
+ "C14": (True, "static analysis: CFG dominance + SSA provenance on the configuration constructors; lock-state for AddNode",
+         "Decides for every newConfig implementation and option constructor: sorted-by-ID before every success return, de-duplication by a call-local id set, address comparison before a pooled node serves a requested address, no append/sort on operand slices, atomic test-and-insert in AddNode, non-emptiness test before success, shape of And/WithNewNodes/Except/WithoutNodes/WithNodeIDs, purity of the accessors, pooled identity of every node that reaches a result. Necessary structural conditions.",
+         "Not decided: hash-collision freedom (impossible); G3 decides that a collision is reported.", "DESIGN.md section 3, C14"),
+ "C15": (True, "static analysis: lockset/ownership table over shared library state (guarded-by via lock-state dataflow, atomic-only, write-once-before-publication, no-escape) with goroutine roots from go statements",
+         "Decides, for every field of the frozen shared-state table (27 rows: channel, RawNode, RawManager, Correctable, Async), that all accesses follow the row's discipline; closures and goroutines start with no lock. A violated row is an unsynchronised pair of accesses that public-API use can overlap, i.e. a data race; a clean table is necessary, not sufficient.",
+         "Not decided: races in user code, gRPC, protobuf; memory outside the table.", "DESIGN.md section 3, C15"),
  "C10": (True, "static analysis: CFG path rules on sender/connect/reconnect/NodeStream, provenance of stream contexts and metadata, goroutine-root call paths for the wake-up rule",
          "Decides retry-per-request (isConnected test and connect before a request's fate; connect dials+streams or reconnects), that every stream context derives from the channel's parent context built by newContext with manager and per-node metadata, that the server callback runs once per stream before the receive loop with the stream context, that the reader's back-off wait is woken by whoever else re-establishes the stream, and that the reader is started once. Necessary structural conditions.",
          "Not decided: that redial succeeds; promptness in seconds.", "DESIGN.md section 3, C10"),
